@@ -29,6 +29,7 @@ def opTokens (ops : List String) : List Token :=
     | ["do", _, t, _] => (parseTok t).bind id
     | ["peer", _, t, _, _] => (parseTok t).bind id
     | ["blk", t, _, _, _] => (parseTok t).bind id
+    | ["blkc", t, _, _, _] => (parseTok t).bind id
     | _ => none
 
 def injective (toks : List Token) : Bool :=
@@ -104,6 +105,23 @@ def applyOp (cfg : Cfg) (s : State) (f : List String) : Option (State × List St
     if cfg.bw && (s.bwSend (crc64 tok)).isSome then
       some (step crc64 cfg s (.arrive (if cfg.udp then .non else .resp) tok (m1.toNat?.getD 65000) (padTag tag)), [s!"txblk:{toHex tok}"])
     else some (s, [])
+  -- the same with a further CSM of the peer between the blocks (stream transport): capabilities it does not mention stay
+  | ["blkc", t, _m0, m1, tag] => do
+    let t ← parseTok t
+    let tok := t.getD []
+    if cfg.bw && (s.bwSend (crc64 tok)).isSome then
+      some (step crc64 cfg s (.arrive (if cfg.udp then .non else .resp) tok (m1.toNat?.getD 65000) (padTag tag)), [s!"txblk:{toHex tok}"])
+    else some (s, [])
+  -- responses written back to back: they arrive (and are queued) in that order
+  | ["pipe", parts] => do
+    let mut s := s
+    for part in parts.splitOn "," do
+      match part.splitOn "=" with
+      | [t, tag] =>
+        let t ← parseTok t
+        s := step crc64 cfg s (.arrive .resp (t.getD []) 0 tag)
+      | _ => none
+    some (s, [])
   | ["cancel", c] => do
     let c ← c.toNat?
     some (step crc64 cfg s (.cancel c), [])
@@ -215,6 +233,16 @@ def history (udp : Bool) (ops : List String) (segs : List String) : Option (List
     | ["blk", t, _, _, tag] =>
       let t ← parseTok t
       hist := hist ++ [.peer (t.getD []) (padTag tag) true]
+    | ["blkc", t, _, _, tag] =>
+      let t ← parseTok t
+      hist := hist ++ [.peer (t.getD []) (padTag tag) true]
+    | ["pipe", parts] =>
+      for part in parts.splitOn "," do
+        match part.splitOn "=" with
+        | [t, tag] =>
+          let t ← parseTok t
+          hist := hist ++ [.peer (t.getD []) tag true]
+        | _ => none
     | ["close"] => hist := hist ++ [.close]
     | _ => pure ()
     if !nowait then
